@@ -571,7 +571,8 @@ def run_c08(ctx):
             trans += res.generated
     ctx.n_tlc += len(worlds)
     _lap(ctx, "tlc_worlds")
-    # (A) every batching of the first world, a seeded sample for the others; few for the 100000-packet worlds
+    # (A) thorough: every batching of the first two worlds, a seeded sample for the others; quick: seeded samples
+    # (300 for the first world, 60 for the others); few for the 100000-packet worlds
     full, part, big = (0, 60, 3) if quick else (2, 200, 8)
     scheds = []
     for i, w in enumerate(light):
@@ -621,6 +622,10 @@ def run_c08(ctx):
         "captures reach the capture directory right before the import that names them",
         "worlds are well-formed conversations as in C05 (no 5 minute idle periods, no 4-tuple reuse)",
         "reference for SetDetermined is the real builder's one-shot import (differential); ground truth is C05's job",
+        "OneIdPerConn after a set of captures that shows a conversation with a >= 5 minute hole: judged against the "
+        "one-shot import of the same set (the importer splits at 5 minutes of silence by design)",
+        "quick tier: seeded samples of the 1536 batchings per world" if quick else
+        "all 1536 batchings for two worlds, seeded samples of 200 for the others",
     ]
 
 
